@@ -536,9 +536,59 @@ func genC13(rng *rand.Rand, concurrent bool) *c13Script {
 	return sc
 }
 
+// c13LongLife: one long-lived callback, then 70000 subscribe/unsubscribe cycles on the same
+// connection, then events: the long-lived callback is still there, every removed one is gone.
+func c13LongLife(t *testing.T, r *fw.Run, key string) {
+	r.Begin(key, "70000 subscription cycles")
+	var keep, gone, fresh int
+	_ = rand.IntN
+	body := "data: 1\n\nevent: t1\ndata: 2\n\n"
+	rt := &scriptedRT{bodies: func(int, *http.Request) (io.Reader, error) { return strings.NewReader(body), nil }}
+	cl := &sse.Client{HTTPClient: &http.Client{Transport: rt}, Backoff: sse.Backoff{MaxRetries: -1}}
+	req, _ := http.NewRequestWithContext(context.Background(), http.MethodGet, "http://verif.invalid/", http.NoBody)
+	conn := cl.NewConnection(req)
+	// nine long-lived callbacks, three of each kind, so that whatever ID arithmetic an implementation
+	// uses, a recycled ID meets a long-lived callback of the same kind
+	subKind := func(k int, f sse.EventCallback) sse.EventCallbackRemover {
+		switch k % 3 {
+		case 0:
+			return conn.SubscribeMessages(f)
+		case 1:
+			return conn.SubscribeEvent("t1", f)
+		}
+		return conn.SubscribeToAll(f)
+	}
+	for k := 0; k < 9; k++ {
+		subKind(k, func(sse.Event) { keep++ })
+	}
+	var stale []sse.EventCallbackRemover
+	for i := 0; i < 70000; i++ {
+		// kinds rotate, with a phase shift every 1000 cycles
+		rm := subKind(i+i/1000, func(sse.Event) { gone++ })
+		rm()
+		if i%5000 == 0 {
+			stale = append(stale, rm)
+		}
+	}
+	conn.SubscribeEvent("t1", func(sse.Event) { fresh++ })
+	conn.SubscribeToAll(func(sse.Event) { fresh += 100 })
+	for _, rm := range stale {
+		rm() // stale removers of long ago must not hit anybody else
+	}
+	conn.Connect()
+	r.Count("scripts", 1)
+	r.Eval(fw.Hash("c13-longlife"), true)
+	if keep != 12 || gone != 0 || fresh != 201 {
+		r.Violation(key, []string{"callback_lost_after_many_subscriptions"}, map[string]any{"long_lived_calls": keep, "removed_calls": gone, "fresh_calls": fresh}, "C13: after 70000 subscribe/unsubscribe cycles: long-lived callbacks saw %d (want 12), removed ones %d (want 0), fresh ones %d (want 201)", keep, gone, fresh)
+	}
+}
+
 func TestC13(t *testing.T) {
 	r := fw.Start(t, "C13")
 	defer r.Finish()
+	if r.Mine("H", 0) {
+		c13LongLife(t, r, fw.Key("H", 0))
+	}
 	run := func(phase string, i int, concurrent bool) {
 		key := fw.Key(phase, i)
 		rng := r.Rand(phase, i)
